@@ -759,13 +759,15 @@ func checkQuantifier(c *Ctx, p *packages.Package, fd *ast.FuncDecl, rule string)
 					// for i := 0; i < B; i++ { acc = append(acc, E) }
 					bound, okB := lin{}, false
 					if init, ok := s.Init.(*ast.AssignStmt); ok && len(init.Rhs) == 1 {
-						if v, ok := constInt(info, init.Rhs[0]); ok && v == 0 {
+						if v, ok := constInt(info, init.Rhs[0]); ok {
+							startAt := int(v)
 							if cond, ok := ast.Unparen(s.Cond).(*ast.BinaryExpr); ok && (cond.Op == token.LSS || cond.Op == token.LEQ) {
 								if post, ok := s.Post.(*ast.IncDecStmt); ok && post.Tok == token.INC {
 									bound, okB = linOf(cond.Y)
 									if cond.Op == token.LEQ {
 										bound = bound.add(lin{c: 1})
 									}
+									bound = bound.add(lin{c: -startAt})
 								}
 							}
 						}
